@@ -19,6 +19,8 @@ from bfsa.terms import C, NONE, Term, cval, is_const, mk, show, subterms
 
 from rules import bec2
 from rules.bf3 import _self_attr
+from rules import stackbec2
+from rules import stackrt
 
 LEVEL = "other"
 VERIF = os.path.dirname(os.path.dirname(os.path.abspath(__file__)))
@@ -384,4 +386,5 @@ def run(prog, chk, tier):
     header_rules(prog, chk, "C09")
     validation_chain_rules(prog, chk, "C09")
     dh_secret_rules(prog, chk, "C09")
+    stackrt.guarded(chk, "C09.stack-bec2", stackbec2.bec2_file_rules, prog, chk, "C09", tier, want=("ecc-layout",))
     chk.assume("point multiplication computes d*Q on P-256 (C17 clauses); SHA-256 is hashlib's; AES as in C16")
